@@ -93,6 +93,26 @@ def gen_script(rng, method, stream=False):
     return ops or ["wh:200"]
 
 
+def short_body_episodes(rng):
+    """a backend that dies in the middle of a body (it declared more than it sends, with and without an early flush),
+    with each optional feature of the balancer switched on in turn: the client must see the body break off exactly
+    as it does when talking to the backend directly — not a tidy end, not extra bytes"""
+    eps = []
+    for feats in ("c", "p", "cr", "crpal", "l", "-"):
+        ep = ["px new round_robin %s - %s" % (rng.choice(["00", "11"]), feats)]
+        for total, extra, status, flush in ((100, 7, 200, False), (5000, 1, 200, True), (40000, 30, 404, False), (0, 12, 503, False)):
+            ops = ["sh:Content-Type:text%2Fplain", "sh:Content-Length:%d" % (total + extra), "wh:%d" % status]
+            if total:
+                ops.append("w:%d:%d" % (total, rng.randint(0, 250)))
+            if flush:
+                ops.append("fl")
+            for mode in ("direct", "via"):
+                ep.append("px x %s GET /p - 0 cl %s" % (mode, ";".join(ops)))
+        ep.append("px close")
+        eps.append(ep)
+    return eps
+
+
 def hdr_tok(h):
     if not h:
         return "-"
@@ -265,6 +285,7 @@ def check(ctx):
     eps = []
     for i in range(n_eps):
         eps.append(gen_episode(ctx.rng, per, strategy=STRATS[i % 5]))
+    eps += short_body_episodes(ctx.rng) if ctx.thorough() else short_body_episodes(ctx.rng)[:4]
     d.check(C.load_corpus(ID) + eps, oracle=oracle, label="wire")
     nx = sum(len(e) - 2 for e in eps) // 2
     scripts = set(l.split()[8] for e in eps for l in e if l.startswith("px x via"))
